@@ -95,6 +95,8 @@ def run(seed, n=40):
         kind = rng.choice(["unsync", "sync"])
         name, lines = gen.gen_cache_case(rng, kind, i, nops=rng.choice([6, 12, 25]))
         lines = [l for l in lines if l != "DROP"]
+        # (the iteration-across-an-advance op is two model steps: the extraction cross-check runs it as such)
+        lines = [x for l in lines for x in ([f"D {l.split()[1]}", "T"] if l.startswith("TD ") else [l])]
         cases.append((name, lines))
     os.makedirs(C.WORK, exist_ok=True)
     vfile = os.path.join(C.WORK, f"vmcases_{os.getpid()}.v")
